@@ -36,6 +36,12 @@ def udpcl_polling_cases(chk, sigtable):
         ('interval-uint32-max', {3: 2 ** 32 - 1, 4: 'dtn://peer/'}),
         ('interval-float', {3: 1.5, 4: 'dtn://peer/'}),
         ('interval-text', {3: '1000', 4: 'dtn://peer/'}),
+        ('interval-bytes', {3: b'\x01', 4: 'dtn://peer/'}),
+        ('interval-list', {3: [1], 4: 'dtn://peer/'}),
+        ('interval-null', {3: None, 4: 'dtn://peer/'}),
+        ('interval-inf', {3: float('inf'), 4: 'dtn://peer/'}),
+        ('interval-nan', {3: float('nan'), 4: 'dtn://peer/'}),
+        ('interval-bool', {3: True, 4: 'dtn://peer/'}),
         ('nodeid-empty', {3: 1000, 4: ''}),
         ('nodeid-list', {3: 1000, 4: ['dtn://peer/']}),
     ]
